@@ -206,9 +206,39 @@ def h_add_many(ctx, n, trunc_freq, cap=None):
     ctx.claim('finite', finite(ctx, Z))
 
 
+def h_concrete_wide_spectrum(ctx):
+    """Real code, fixed inputs with singular values spread over many orders of
+    magnitude and accuracies between them (tail energies far below the double
+    precision of the total energy): error within e times the norm, no rank
+    above the smallest admissible one.  Supplementary to the symbolic
+    instances: exact arithmetic cannot see absorption of small terms."""
+    ok_err, ok_rank = True, True
+    rot = lambda t: np.array([[np.cos(t), -np.sin(t)], [np.sin(t), np.cos(t)]])
+    for s2, e in [(1e-10, 1e-12), (1e-10, 1e-9), (1e-13, 1e-14), (1e-6, 1e-7), (3e-9, 1e-9)]:
+        A = rot(0.3) @ np.diag([1., s2]) @ rot(1.1)
+        for is_eigh in (True, False):
+            Y = [A[:, :].reshape(1, 2, 2).copy(), np.eye(2).reshape(2, 2, 1).copy()]
+            Z = teneva.truncate(Y, e, is_eigh=is_eigh)
+            err = np.linalg.norm(teneva.full(Z) - A)
+            want = 1 if s2 <= e * np.sqrt(1 + s2 ** 2) else 2
+            # (the eigen-decomposition mode squares the spectrum: its floor is sqrt(eps), stated in the docstring)
+            floor_ok = (not is_eigh) or s2 >= 1e-7 or want == 1
+            if floor_ok:
+                ok_err = ok_err and err <= e * np.linalg.norm(A) * (1 + 1e-6)
+                ok_rank = ok_rank and Z[0].shape[2] <= want
+        for rel in (False, True):
+            U, V = teneva.matrix_skeleton(A, e, rel=rel)
+            err = np.linalg.norm(U @ V - A)
+            ok_err = ok_err and err <= e * (1 + 1e-6)
+            ok_rank = ok_rank and U.shape[1] <= (1 if s2 <= e else 2)
+    ctx.claim('error_within_budget', bool(ok_err))
+    ctx.claim('rank_not_above_smallest_admissible', bool(ok_rank))
+
+
 def instances(tier):
     out = []
     quick = tier == 'quick'
+    out.append({'func': 'h_concrete_wide_spectrum', 'params': {}, 'opts': {'concrete_only': True}})
     gen = [(2, 2, 2)] if quick else [(2, 2, 2), (2, 1, 2)]
     for (n1, r, n2) in gen:
         for is_eigh in (True, False):
